@@ -245,6 +245,9 @@ impl NodeStream {
         let now = verif::now_ns();
         let w = noop_waker();
         let mut cx = Context::from_waker(&w);
+        // the known cross-kind finding needs a put_mutable in the same case; without one, a concurrency
+        // error in a plain put comes from what remote nodes sent
+        let any_put_mut = self.calls.iter().any(|c| c.what.split(' ').nth(2) == Some("put_mut"));
         for c in self.calls.iter_mut() {
             if c.done {
                 continue;
@@ -398,7 +401,7 @@ impl NodeStream {
             if let Err(p) = r {
                 let m = p.downcast_ref::<String>().cloned().or_else(|| p.downcast_ref::<&str>().map(|s| s.to_string())).unwrap_or("?".into());
                 let plain_put = ["put_imm", "announce", "sannounce"].iter().any(|k| c.what.split(' ').nth(2) == Some(*k));
-                if m.contains("concurrency") && plain_put {
+                if m.contains("concurrency") && plain_put && any_put_mut {
                     // puts are registered by target alone: a put of another kind on the same 20 bytes
                     // replaced this call's query, and this caller was handed that query's outcome
                     out.violation("C06", "cross-kind-put-shares-outcome", format!("call c{no} ({}) got the concurrency error of a put_mutable on the same target, which its facade treats as unreachable: the caller panics ({m})", c.what.chars().take(60).collect::<String>()));
@@ -1091,6 +1094,11 @@ pub struct VPeer {
 pub struct VNet {
     pub peers: Vec<VPeer>,
     pub by_addr: HashMap<SocketAddrV4, usize>,
+    /// how many closer nodes an answer lists (8 like most of the real network; 20 is what this
+    /// library's own server sends; more than 20 is legal KRPC too)
+    pub list_k: usize,
+    /// list them farthest first
+    pub list_rev: bool,
 }
 
 fn xor_cmp(t: &Id, a: &Id, b: &Id) -> std::cmp::Ordering {
@@ -1115,7 +1123,7 @@ impl VNet {
             by_addr.insert(addr, i);
             peers.push(VPeer { id, addr, alive: true, mode: 0, read_only: false, imm: HashMap::new(), muts: HashMap::new(), peers: HashMap::new(), speers: HashMap::new(), put_reply: 0, forge: 0, extra_delay: 0, put_delay: 0, ignore_gets: false, ignore_puts: false, ro_puts: false, echo_requester: false, chain_for: None });
         }
-        VNet { peers, by_addr }
+        VNet { peers, by_addr, list_k: 8, list_rev: false }
     }
     pub fn closest(&self, target: &Id, k: usize) -> Vec<Node> {
         let mut v: Vec<&VPeer> = self.peers.iter().collect();
@@ -1134,7 +1142,10 @@ impl VNet {
                 let v: Vec<Node> = if ct == t { list.iter().map(|&j| Node::new(s.peers[j].id, s.peers[j].addr)).collect() } else { vec![] };
                 return v.into_boxed_slice();
             }
-            let mut v = s.closest(t, 8);
+            let mut v = s.closest(t, s.list_k);
+            if s.list_rev {
+                v.reverse();
+            }
             if let Some(e) = &echo {
                 v.retain(|n| n.address() != s.peers[i].addr || s.peers.len() > 1);
                 v.push(e.clone());
@@ -1212,6 +1223,8 @@ impl VNet {
                     let wrong_ih = SignedAnnounce::new(&key_from_seed(32), &me);
                     let peers = match forge {
                         3 => vec![(*good.key(), good.timestamp(), *good.signature()), (*wrong_ih.key(), wrong_ih.timestamp(), *wrong_ih.signature())],
+                        // a forged record first, a genuine one last: no position in the list decides alone
+                        6 => vec![(*wrong_ih.key(), wrong_ih.timestamp(), *wrong_ih.signature()), (*good.key(), good.timestamp(), *good.signature())],
                         _ => vec![(*wrong_ih.key(), wrong_ih.timestamp(), *wrong_ih.signature()), (*good.key(), good.timestamp() + 1, *good.signature())],
                     };
                     return MessageType::Response(ResponseSpecific::GetSignedPeers(GetSignedPeersResponseArguments { responder_id: me, token, peers, nodes: n }));
@@ -3113,6 +3126,131 @@ pub fn run(out: &mut Out, seed: u64, thorough: bool, replay: Option<&str>) {
         d.settle(20 * SEC, 10 * MS);
         d.finish();
         d.out.mark_distinct(fnv(format!("X{first}").as_bytes()));
+        d.s.shutdown();
+    }
+    // ---- R1 (C01): the largest legal items on a network whose nodes list 20 closer nodes per answer, like
+    //      this library's own servers do: an answer carrying a 1000-byte value, key, signature and 20 nodes is
+    //      about 1.7 kB, beyond an Ethernet frame and within the 2048-byte receive buffer
+    for round in 0..(if thorough { 3 } else { 1 }) {
+        t0 += 10_000_000_000_000;
+        let mut net = VNet::new(&mut rng, 25 + 10 * round, true);
+        net.list_k = 20;
+        let boot = vec![net.peers[0].addr];
+        let mut d = Driver::new(out, rng.next(), net);
+        d.begin("c", &boot, None, rng.next() % 1_000_000 + 1, t0);
+        d.run_for(2 * SEC, 10 * MS);
+        let v = d.rng.bytes(1000);
+        d.api(format!("put_imm v={} expect=ok prop=C08", hex(&v)));
+        d.settle(20 * SEC, 10 * MS);
+        let salt = d.rng.bytes(64);
+        let mv = d.rng.bytes(1000);
+        let call = put_mut_call(9, 7, &mv, Some(&salt), None);
+        d.api(format!("{call} expect=ok prop=C08"));
+        d.settle(20 * SEC, 10 * MS);
+        d.run_for(5 * SEC, SEC);
+        let g1 = d.api(format!("get_imm t={}", hex(imm_target(&v).as_bytes())));
+        d.settle(20 * SEC, 10 * MS);
+        let g2 = d.api(format!("get_mut k={} salt={} seq=none", hex(key_from_seed(9).verifying_key().as_bytes()), hex(&salt)));
+        d.settle(20 * SEC, 10 * MS);
+        for (g, what) in [(g1, "get_immutable of a 1000-byte value"), (g2, "get_mutable of a 1000-byte value under a 64-byte salt")] {
+            let got = d.results(g);
+            if !got.iter().any(|r| r.contains(":item:") || r.contains(":some:")) {
+                d.out.violation("C01", "stored-item-not-yielded", format!("{what}, acknowledged by every storing node, on a network whose answers list 20 closer nodes yielded {:?}", got.iter().map(|r| r.chars().take(40).collect::<String>()).collect::<Vec<_>>()));
+            }
+        }
+        d.finish();
+        d.out.mark_distinct(fnv(format!("R1{round}").as_bytes()) ^ d.rng.0);
+        d.s.shutdown();
+    }
+    // ---- S1 (C07): answers that list MORE than 20 closer nodes, farthest first.  Nothing in KRPC bounds the
+    //      list; every listed node counts as "listed in the answers it received"
+    for round in 0..(if thorough { 4 } else { 2 }) {
+        t0 += 10_000_000_000_000;
+        let mut net = VNet::new(&mut rng, 60, true);
+        net.list_k = 26 + 4 * round;
+        net.list_rev = round % 2 == 0;
+        let boot = vec![net.peers[0].addr];
+        let mut d = Driver::new(out, rng.next(), net);
+        d.begin("c", &boot, None, rng.next() % 1_000_000 + 1, t0);
+        d.run_for(2 * SEC, 10 * MS);
+        for k in 0..3 {
+            let t = Id::from_bytes(d.rng.id20()).expect("id");
+            let call = match k {
+                0 => format!("find_node t={}", hex(t.as_bytes())),
+                1 => format!("get_peers ih={}", hex(t.as_bytes())),
+                _ => format!("get_imm t={}", hex(t.as_bytes())),
+            };
+            d.lookup_and_check_closure(call, &t);
+        }
+        d.finish();
+        d.out.mark_distinct(fnv(format!("S1{round}").as_bytes()) ^ d.rng.0);
+        d.s.shutdown();
+    }
+    // ---- O2 (C05, C08): storing nodes answer EVERY kind of put with 301 / 302, codes that only make sense
+    //      for a mutable item.  No facade may panic over it; the plain puts fail with the error response
+    for code in [301i32, 302] {
+        for kind in 0..4 {
+            t0 += 10_000_000_000_000;
+            let mut net = VNet::new(&mut rng, 5, true);
+            for p in net.peers.iter_mut() {
+                p.put_reply = code;
+            }
+            let boot = vec![net.peers[0].addr];
+            let mut d = Driver::new(out, rng.next(), net);
+            d.begin("c", &boot, None, rng.next() % 1_000_000 + 1, t0);
+            d.run_for(2 * SEC, 10 * MS);
+            let ih = Id::from_bytes(d.rng.id20()).expect("id");
+            let call = match kind {
+                0 => format!("put_imm v={}", hex(format!("refused {code}").as_bytes())),
+                1 => format!("announce ih={} port=7000", hex(ih.as_bytes())),
+                2 => sannounce_call(&ih, 5),
+                _ => put_mut_call(9, 3, b"refused", None, None),
+            };
+            d.api(call);
+            d.settle(20 * SEC, 10 * MS);
+            d.api("info".into());
+            d.settle(5 * SEC, 10 * MS);
+            d.finish();
+            d.out.mark_distinct(fnv(format!("O2{code}{kind}").as_bytes()));
+            d.s.shutdown();
+        }
+    }
+    // ---- U (C09): one of the two bootstrap addresses has port 0, to which no datagram can be sent: the
+    //      socket's `send_to` fails (as sendto(2) does), the request stays outstanding until it expires.  Six
+    //      get_peers lookups of different info hashes run side by side; the only live node answers each
+    //      request with a peer that is unique to the info hash asked for, so whatever get_peers(T) yields must
+    //      be the marker of T: anything else is an answer attributed to a request it does not answer
+    for round in 0..(if thorough { 4 } else { 2 }) {
+        t0 += 10_000_000_000_000;
+        let mut net = VNet::new(&mut rng, 1 + round % 2, true);
+        let ihs: Vec<Id> = (0..6).map(|_| Id::from_bytes(rng.id20()).expect("id")).collect();
+        let marker = |i: usize| SocketAddrV4::new(Ipv4Addr::new(10, 77, 0, i as u8 + 1), 1000 + i as u16);
+        for p in net.peers.iter_mut() {
+            for (i, ih) in ihs.iter().enumerate() {
+                p.peers.insert(*ih, vec![marker(i)]);
+            }
+        }
+        let boot = vec![net.peers[0].addr, SocketAddrV4::new(Ipv4Addr::new(10, 1, 9, 9), 0)];
+        let mut d = Driver::new(out, rng.next(), net);
+        d.begin("c", &boot, None, rng.next() % 1_000_000 + 1, t0);
+        d.run_for(3 * SEC, 10 * MS);
+        let calls: Vec<u32> = ihs.iter().map(|ih| d.api(format!("get_peers ih={}", hex(ih.as_bytes())))).collect();
+        d.settle(20 * SEC, 10 * MS);
+        for (i, c) in calls.iter().enumerate() {
+            let want = addr_s(&marker(i));
+            for r in d.results(*c) {
+                if let Some((_, l)) = r.split_once(":item:") {
+                    if l.split(',').any(|a| a != want) {
+                        d.out.violation("C09", "misattributed-response", format!("get_peers of info hash #{i} yielded {l}; the only node of the network answers requests for that info hash with {want} alone, so an answer to another request was attributed to this lookup"));
+                    }
+                }
+            }
+            if !d.results(*c).iter().any(|r| r.contains(":item:")) {
+                d.out.violation("C09", "genuine-rejected", format!("get_peers of info hash #{i} yielded nothing although the live node answered every request in time: its answer was consumed by something else"));
+            }
+        }
+        d.finish();
+        d.out.mark_distinct(fnv(format!("U{round}").as_bytes()) ^ d.rng.0);
         d.s.shutdown();
     }
     // ---- I: more than 1000 distinct lookup targets roll the lookup cache (C20)
